@@ -127,23 +127,24 @@ Print Assumptions c01_no_panic_tsig_partial.
    c01_no_panic_tsig: c01_no_panic_tsig_partial WITHOUT [unverified]: for EVERY verifier - so also for requests whose
    TSIG verifies (answered NOTIMP / REFUSED / SERVFAIL / FORMERR with a signed TSIG record, or - out of a Loaded zone -
    by the still abstract [answer]) and for those whose time is outside the fudge window (signed BADTIME response with
-   6 octets of other data) - and for every hmac that returns an octet string of the algorithm's output size (the only
-   two facts about HMAC used: [hmac_len], and the typing fact [hmac_wf] that its octets are < 256), the extended
-   composed model returns a response or none, never Panic.  Inside: Writer::set_tsig with reserved_len = signed_len
+   6 octets of other data) - and for every hmac whose output has the algorithm's output size ([hmac_len], the ONLY fact
+   about HMAC used: Proofs/SignShapeP.v shows that panics and lengths do not depend on the MAC's octets, Proofs/SignLenP.v
+   transfers the theorem from the octet-normalised hmac), the extended composed model returns a response or none,
+   never Panic.  Inside: Writer::set_tsig with reserved_len = signed_len
    succeeds exactly when the pre-scan reserved; sign_response never panics (message >= 12 octets, ARCOUNT >= 1 because
    set_tsig counted the record, request MAC <= 65535, RDATA <= 65535); the signed record fits the reservation
    key name + algorithm name + 26 + MAC size (+ 6 for BADTIME) - finish_signed_ok2. *)
-From QV Require Import Proofs.SignTopP.
+From QV Require Import Proofs.SignTopP Proofs.SignLenP.
 From QV Require Model.TsigMsg.
 
 Theorem c01_no_panic_tsig : forall hmac zones negttl answer verify cfg buf req,
-  (forall a k d, length (hmac a k d) = TsigMsg.output_size a) -> (forall a k d, wf_bytes (hmac a k d)) ->
+  (forall a k d, length (hmac a k d) = TsigMsg.output_size a) ->
   wf_cfg cfg -> length buf = c_buflen cfg -> (c_now cfg < 281474976710656)%N ->
   catalog_ok cfg zones -> wf_bytes req ->
   exists x, handle_message_wt hmac zones negttl answer verify cfg buf req = Ok x.
 Proof.
-  intros hmac zones negttl answer verify cfg buf req Hl Hw Hcfg Hbuf Hnow Hcat Hwf.
-  exact (handle_message_wt_total_all hmac Hl Hw zones negttl answer verify cfg buf Hcfg Hbuf Hnow (fun _ _ => True) req Hcat Hwf).
+  intros hmac zones negttl answer verify cfg buf req Hl Hcfg Hbuf Hnow Hcat Hwf.
+  exact (handle_message_wt_total_len hmac Hl zones negttl answer verify cfg buf Hcfg Hbuf Hnow (fun _ _ => True) req Hcat Hwf).
 Qed.
 
 (* non-vacuity: a constant hmac of the output size meets both hypotheses; a request signed with the installed key
